@@ -4,7 +4,8 @@
 #                                 negative configurations incl. pixman 0.40.1's capacity test (the finding)
 #   GEN  spec/gen/GlyphGen        all behaviours of small depth + long -generate behaviours, replayed on the
 #                                 small-table build (flavour smallglyph); seeded client-like scripts
-#   TV   spec/trace/GlyphTrace    every call validated against the refined spec (table dump, counters, mru, results)
+#   TV   spec/trace/GlyphTrace    every call validated (A) against the map under the refinement mapping of the logged
+#                                 dump (layout independent, mandatory) and (B) against the exact layout model (note only)
 #        spec/trace/GlyphMapTrace real constants: long runs (17000 inserts, table-filling run, tombstone build-up)
 #                                 against the abstract spec; glyph drawing against the fold the statement names
 import json
@@ -35,8 +36,14 @@ CLAIMS = {
              "HASH_SIZE, remove without tombstone, unconditional sweep, eviction from the mru head, eviction at nested "
              "thaw) are each rejected. All behaviours of small depth and long TLC-generated behaviours plus seeded "
              "client-like scripts (real colliding hashes, full collisions, table-filling runs) are replayed on the "
-             "library built with HIGH=4/LOW=2; TLC validates every call against the refined spec incl. the table "
-             "dump. With the real constants, long runs (17000 inserts in one freeze, drawing-touched glyphs, survivors "
+             "library built with HIGH=4/LOW=2; TLC validates every call in two levels: (A) mandatory and independent of "
+             "the table layout -- the call is an action of the abstract map under the refinement mapping applied to the "
+             "logged dump (lookup = map, nothing vanishes except by remove / the outermost thaw, refusal only when the "
+             "logged counters say full, a NULL slot always remains, counters = slot counts, thaw follows the water-mark "
+             "rule on the logged counters and evicts exactly the least recently used, every drawn glyph -- also one "
+             "drawn outside the destination or clipped away -- becomes most recently used); (B) tracked only -- the "
+             "exact slot layout predicted by the linear-probing model; a departure is reported as a note in the "
+             "evidence, not as a violation. With the real constants, long runs (17000 inserts in one freeze, drawing-touched glyphs, survivors "
              "after thaw, a table-filling run, tombstone build-up and whole-table dump) are validated against the "
              "abstract spec, and pixman_composite_glyphs[_no_mask] against the fold of Composite32 the statement "
              "names (a1/a8/a8r8g8b8 glyphs, off-image positions, clips, many operators). Every call that could spin "
@@ -53,17 +60,18 @@ MCDIR = os.path.join(vf.SPEC, "mc")
 MC_QUICK = [("GlyphCacheMC.cfg", False), ("GlyphCacheMC_fill6k5.cfg", False), ("GlyphCacheMC_fill4.cfg", False),
             ("GlyphCacheMC_neg_capacity6.cfg", True), ("GlyphCacheMC_neg_capacity4.cfg", True),
             ("GlyphCacheMC_neg_remove_null.cfg", True), ("GlyphCacheMC_neg_sweep_always.cfg", True),
-            ("GlyphCacheMC_neg_thaw_head.cfg", True), ("GlyphCacheMC_neg_thaw_nested.cfg", True)]
+            ("GlyphCacheMC_neg_thaw_head.cfg", True), ("GlyphCacheMC_neg_thaw_nested.cfg", True),
+            # the abstract level on its own: any layout that refines the map keeps its invariants
+            ("GlyphMapMC.cfg", False), ("GlyphMapMC_neg_dead.cfg", True)]
 MC_THOROUGH = [("GlyphCacheMC_fill6.cfg", False), ("GlyphCacheMC_vals.cfg", False),
                ("GlyphCacheMC_neg_capacity8.cfg", True)]
 
 
 def mc(chk, tier):
     cfgs = MC_QUICK + (MC_THOROUGH if tier == "thorough" else [])
-    mod = os.path.join(MCDIR, "GlyphCacheMC.tla")
-
     def one(c):
         cfg, neg = c
+        mod = os.path.join(MCDIR, "GlyphMapMC.tla" if cfg.startswith("GlyphMapMC") else "GlyphCacheMC.tla")
         return c, vf.tlc_mc(mod, cfg=os.path.join(MCDIR, cfg), workers=4, timeout=1500, expect_violation=neg,
                             tag="glyphmc-" + cfg[:-4])
 
@@ -132,7 +140,7 @@ def beh_to_script(beh, name, rng):
         elif op == "D":
             out.append("D %d" % k)
         elif op == "U":
-            out.append("UQ %d 1 %d" % (rng.choice([0, 0, 1]), k))
+            out.append("UQ %d 1 %d" % (rng.choice([0, 0, 1, 2, 3]), k))
     return out
 
 
@@ -160,7 +168,7 @@ def client_script(rng, name, nk, length):
             out.append("D %d" % k)
         elif r < 0.05 + p_thaw + p_ins + p_rem + 0.12:
             n = rng.randint(1, 3)
-            out.append("UQ %d %d %s" % (rng.choice([0, 0, 1]), n, " ".join(str(rng.choice(hot)) for _i in range(n))))
+            out.append("UQ %d %d %s" % (rng.choice([0, 0, 1, 2, 3]), n, " ".join(str(rng.choice(hot)) for _i in range(n))))
         else:
             out.append("L %d" % k)
     while fr > 0:
@@ -190,6 +198,34 @@ def fill_script(name, nk, rng):
     for k in range(1, nk + 1):
         out.append("L %d" % k)
     out += ["F", "IQ %d %d %d %d %d %d %d" % ((nk,) + glyph_params(rng)), "T", "L %d" % nk]
+    return out
+
+
+def clip_script(name, nk, rng):
+    """old glyphs are drawn where no pixel reaches the destination (outside it / clipped away), then the outermost
+       thaw finds the cache above its high-water mark: the glyphs just used must be the survivors"""
+    ks = rng.sample(range(1, nk + 1), 5 + rng.randint(0, 2))
+    out = ["R %s" % name, "F"]
+    for k in ks:
+        out.append("IQ %d %d %d %d %d %d %d" % ((k,) + glyph_params(rng)))
+    if rng.random() < 0.5:
+        out += ["F", "L %d" % ks[0], "T"]
+    old = ks[:2] if rng.random() < 0.7 else [ks[1], ks[0]]
+    style = rng.randint(0, 3)
+    if style == 0:
+        out.append("UQ %d 2 %d %d" % (rng.choice([2, 3]), old[0], old[1]))
+    elif style == 1:
+        out += ["UQ 2 1 %d" % old[0], "UQ 3 1 %d" % old[1]]
+    elif style == 2:
+        out += ["UQ 0 1 %d" % ks[2], "UQ 3 1 %d" % old[0], "UQ 1 1 %d" % ks[3], "UQ 2 1 %d" % old[1]]
+    else:
+        out += ["UQ 2 3 %d %d %d" % (old[0], ks[-1], old[1])]
+    out.append("T")
+    for k in ks:
+        out.append("L %d" % k)
+    out += ["F", "IQ %d %d %d %d %d %d %d" % ((ks[2],) + glyph_params(rng)), "UQ 3 1 %d" % ks[2], "T"]
+    for k in ks:
+        out.append("L %d" % k)
     return out
 
 
@@ -386,6 +422,8 @@ def run(prop, args):
         ex.append(client_script(rng, "cli%d" % i, nk12, rng.choice([30, 80, 200])))
     for i in range(6 if quick else 40):
         ex.append(fill_script("fill%d" % i, nk12, rng))
+    for i in range(12 if quick else 80):
+        ex.append(clip_script("clip%d" % i, nk12, rng))
     nparts = 3 if quick else 10
     for p in range(nparts):
         small.append((key_line(cls12, fonts12), ex[p::nparts]))
@@ -432,9 +470,29 @@ def run(prop, args):
         count_small(chk, t)
     chk.sample({"script_lines": scripts["fill0"][:12]})
 
-    # 4. trace validation
-    vf.validate_batches(chk, "GlyphTrace", traces_small, cfg=cfg_ref, parallel=8, timeout=1500, label="refined")
-    vf.log("C17: refined-level trace validation done (%.0fs)" % (time.time() - chk.t0))
+    # 4. trace validation.  VF:policy notes (level (B) of GlyphTrace: the table layout departs from the linear-probing
+    #    model) are recorded in the evidence; they are not violations.
+    notes = []
+    orig = vf.tlc_trace
+
+    def noting(*a, **k):
+        res = orig(*a, **k)
+        notes.extend(res[3].vf("policy"))
+        return res
+
+    vf.tlc_trace = noting
+    try:
+        vf.validate_batches(chk, "GlyphTrace", traces_small, cfg=cfg_ref, parallel=8, timeout=1500, label="refined")
+    finally:
+        vf.tlc_trace = orig
+    chk.extra["layout_model"] = ("every logged table state is the one the linear-probing model of GlyphCache.tla predicts"
+                                 if not notes else
+                                 "NOTE (not a violation): %d executions depart from the linear-probing layout model of "
+                                 "GlyphCache.tla; they were validated at the layout-independent level only; first: %s"
+                                 % (len(notes), notes[0][:200]))
+    if notes:
+        vf.log("C17: " + chk.extra["layout_model"])
+    vf.log("C17: small-table trace validation done (%.0fs)" % (time.time() - chk.t0))
     vf.validate_batches(chk, "GlyphMapTrace", traces_abs, cfg=cfg_abs, parallel=8, timeout=1500, label="abstract",
                         xmx="6g")
     save_scripts(chk, scripts, metas)
